@@ -49,6 +49,7 @@ fn c_like(code: &'static str, code_s: &'static str, doc: Option<&'static str>, b
         seg("code", Kind::NonProse, code, false),
         seg("code-with-string", Kind::NonProse, code_s, false),
         seg("line-comment", Kind::Prose, "// {}", true),
+        seg("line-comment-with-url", Kind::Prose, "// {} http://zzqhost.example/zzqpath?zzqkey=1 {}", true),
         seg("line-comment-after-code", Kind::Prose, "", true), // filled per row below
         seg("ignored-comment", Kind::Ignored, "// harper:ignore zzqalpha zzqbravo", true),
         seg("ignored-comment-2", Kind::Ignored, "// spellchecker: ignore zzqalpha", true),
@@ -70,6 +71,7 @@ fn hash_like(code: &'static str, code_s: &'static str) -> Vec<Seg> {
         seg("code", Kind::NonProse, code, false),
         seg("code-with-string", Kind::NonProse, code_s, false),
         seg("line-comment", Kind::Prose, "# {}", true),
+        seg("line-comment-with-url", Kind::Prose, "# {} https://zzqhost.example/zzqpath {}", true),
         seg("ignored-comment", Kind::Ignored, "# harper: ignore zzqalpha zzqbravo", true),
         seg("blank", Kind::Blank, "", false),
     ]
@@ -152,6 +154,7 @@ pub fn row_for(fe: &FrontEnd) -> Option<Row> {
                 seg("list-item", Kind::Prose, "- {}\n", false),
                 seg("emphasis", Kind::Prose, "*{}* and **{}**\n", false),
                 seg("paragraph-with-inline-code", Kind::Prose, "{} `zzqcode é😀 zzqmore` {}\n", false),
+                seg("paragraph-with-url", Kind::Prose, "{} https://zzqhost.example/zzqpath {}\n", false),
                 // git strips everything from the first comment line on: nothing after it is prose
                 seg("git-comment", Kind::NonProse, "# zzqcomment é😀 zzqmore\n", false),
                 seg("fenced-code", Kind::NonProse, "```\nzzqfenced é😀 zzqcode\n```\n", false),
@@ -174,6 +177,8 @@ pub fn row_for(fe: &FrontEnd) -> Option<Row> {
                 seg("paragraph-with-padded-code", Kind::Prose, "{} `` `zzqcode` `` {}\n", false),
                 seg("paragraph-with-display-math", Kind::Prose, "{} $$zzqmath + zzqvar$$ {}\n", false),
                 seg("paragraph-with-entities", Kind::Prose, "{} &lt;&gt; &amp; {}\n", false),
+                seg("paragraph-with-url", Kind::Prose, "{} http://zzqhost.example/zzqpath?zzqkey=1 {}\n", false),
+                seg("paragraph-with-autolink", Kind::Prose, "{} <https://zzqhost.example/zzqpath> {}\n", false),
                 seg("fenced-code", Kind::NonProse, "```\nzzqfenced é😀 zzqcode\n```\n", false),
                 seg("indented-code", Kind::NonProse, "    zzqindented é😀 zzqcode\n", false),
                 seg("raw-html", Kind::NonProse, "<div zzqattr=\"zzqvalue\">\n</div>\n", false),
@@ -193,6 +198,7 @@ pub fn row_for(fe: &FrontEnd) -> Option<Row> {
                 seg("script", Kind::NonProse, "<script>var zzqscript = \"zzqvalue é😀\";</script>", false),
                 seg("style", Kind::NonProse, "<style>.zzqclass { color: zzqcolor; }</style>", false),
                 seg("heading", Kind::Prose, "<h1 class=\"zzqclass\">{}</h1>", false),
+                seg("paragraph-with-url", Kind::Prose, "<p>{} http://zzqhost.example/zzqpath {}</p>", false),
             ],
         },
         (Class::Typst, _) => Row {
@@ -208,6 +214,7 @@ pub fn row_for(fe: &FrontEnd) -> Option<Row> {
                 seg("math", Kind::Prose, "{} $zzqmath + zzqvar$ {}\n", false),
                 seg("comment", Kind::NonProse, "// zzqcomment é😀 zzqmore\n", false),
                 seg("list", Kind::Prose, "- {}\n", false),
+                seg("paragraph-with-url", Kind::Prose, "{} https://zzqhost.example/zzqpath {}\n", false),
                 seg("string-with-escapes", Kind::Prose, "#emph(\"{} \\\" \\\\ {}\")\n", false),
                 seg("string-with-unicode-escape", Kind::Prose, "#emph(\"{} \\u{e9} {}\")\n", false),
             ],
@@ -222,6 +229,7 @@ pub fn row_for(fe: &FrontEnd) -> Option<Row> {
                 seg("bird-code", Kind::NonProse, "> zzqbird = \"zzqstring é😀\"\n", false),
                 seg("latex-code", Kind::NonProse, "\\begin{code}\nzzqlatex = \"zzqstring é😀\"\n\\end{code}\n", false),
                 seg("heading", Kind::Prose, "## {}\n", false),
+                seg("paragraph-with-url", Kind::Prose, "{} http://zzqhost.example/zzqpath {}\n", false),
             ],
         },
         (Class::Plain, _) => return None,
